@@ -270,20 +270,33 @@ def escaper_by_classes(ctx, f, prefix):
         for g in sir.reach(idx, f):
             if g is not f and g.body:
                 helpers[g.name] = g
-    loops = [n for n in sir.walk(f.body) if n.get("k") == "for" and any(x.get("k") == "mcall" and x["m"] == "chars" for x in sir.walk(n["e"]))]
+    import guards as gdm
+    its = gdm.derived_names(f.body, ".chars()")
+    loops = []
+    for n in sir.walk(f.body):
+        if n.get("k") == "for" and (any(x.get("k") == "mcall" and x["m"] == "chars" for x in sir.walk(n["e"])) or sir.root_expr_name(n["e"]) in its):
+            loops.append(n)
+        elif n.get("k") == "while" and n["cond"].get("k") == "let" and n["cond"]["e"].get("k") == "mcall" and n["cond"]["e"]["m"] == "next" and sir.root_expr_name(n["cond"]["e"]["recv"]) in its:
+            loops.append(n)
     if len(loops) != 1:
         return [ob(prefix + "/table", None, where, "the emitter is neither one table over `char` nor one loop over `chars()`: the escape table is not decided for this tree")], None
     lp = loops[0]
-    cuts = {0, 0x20, 0x7F, 0xA0, 0xD800, 0xE000, 0x10000, 0x110000}
-    for must in (0x22, 0x5C, 0xA, 0xD, 0x2028, 0x2029):   # the characters that may never pass raw are classes of their own
-        cuts.update((must, must + 1))
-    for body in [f.body] + [g.body for g in helpers.values()]:
-        for n in sir.walk(body):
-            if n.get("k") == "lit" and n.get("t") == "char" and isinstance(n.get("v"), str) and len(n["v"]) == 1:
-                cuts.update((ord(n["v"]), ord(n["v"]) + 1))
-    cuts = sorted(c for c in cuts if 0 <= c <= 0x110000)
-    classes = [(a, b - 1) for a, b in zip(cuts, cuts[1:]) if not (0xD800 <= a <= 0xDFFF)]
-    it = ai.Interp(idx=idx, inline=helpers)
+    FOLLOWERS = [None, "0", "1", "7", "8", "9", "a", "/", ":", '"']
+    classes = ai.char_classes([f.body] + [g.body for g in helpers.values()], extra=[c_ for must in (0x22, 0x5C, 0xA, 0xD, 0x2028, 0x2029) for c_ in (must, must + 1)])
+    state = {"rep": None}
+
+    def hooks(it_, e, st):
+        # a hand-driven iterator: `it.next()` yields the character under analysis once, `it.peek()` any follower
+        if e.get("k") == "mcall" and not e["args"] and e["recv"].get("k") == "path" and sir.root_expr_name(e["recv"]) in its:
+            if e["m"] == "next":
+                if st.env.get("$taken"):
+                    return [(ai.NONE, st)]
+                return [(("Some", state["rep"]), st.set("$taken", True).event(("for-enter",)))]
+            if e["m"] == "peek":
+                return [((ai.NONE if fo is None else ("Some", fo)), st.event(("follower", fo))) for fo in FOLLOWERS]
+        return None
+    it = ai.Interp(hooks=hooks, idx=idx, inline=helpers)
+    it.max_paths = 2000
     forms = set()
     undecided = []
     for lo, hi in classes:
@@ -292,6 +305,7 @@ def escaper_by_classes(ctx, f, prefix):
         for cp in sorted({lo, hi}):
             it.paths = 0
             it.for_value = chr(cp)
+            state["rep"] = chr(cp)
             env = {n_: ai.FREE for n_ in f.param_names() if n_}
             try:
                 outs = it.run({"k": "block", "stmts": [{"k": "expr", "e": lp, "semi": True}]}, env)
@@ -301,31 +315,37 @@ def escaper_by_classes(ctx, f, prefix):
             if not ent or any(o.tainted for o in ent):
                 undecided.append((lo, hi))
                 break
-            got = set("".join(ev[1] for ev in o.events[o.events.index(("for-enter",)):] if ev[0] == "write") for o in ent)
-            if len(got) != 1:
-                problems.append("U+%04X: different paths write different text %s" % (cp, sorted(got)))
-                continue
-            text = got.pop()
-            texts.add(text if text != chr(cp) else "<itself>")
-            if text == chr(cp):
-                if cp in (0x22, 0x5C, 0xA, 0xD, 0x2028, 0x2029):
-                    problems.append("U+%04X passes through unescaped" % cp)
-                elif cp < 0x20:
-                    problems.append("C0 control U+%04X passes through raw" % cp)
-                continue
-            d = decode_js_escape(text)
-            if d is None:
-                problems.append("U+%04X is written as %r, which is not one valid JS escape" % (cp, text))
-                continue
-            if d[0] != cp:
-                problems.append("U+%04X is written as %r, which decodes to U+%04X" % (cp, text, d[0]))
-            if not d[1]:
-                problems.append("%r changes meaning when a digit follows (legacy octal)" % text)
-            if not wxml_accepts(text):
-                problems.append("%r is not read back by the WXML string parser" % text)
-            forms.add(text[:2])
+            seen_pairs = set()
+            for o in ent:
+                after = o.events[o.events.index(("for-enter",)):]
+                text = "".join(ev[1] for ev in after if ev[0] == "write")
+                foll = [ev[1] for ev in after if ev[0] == "follower"]
+                key_ = (text, foll[0] if foll else "?")
+                if key_ in seen_pairs:
+                    continue
+                seen_pairs.add(key_)
+                texts.add(text if text != chr(cp) else "<itself>")
+                if text == chr(cp):
+                    if cp in (0x22, 0x5C, 0xA, 0xD, 0x2028, 0x2029):
+                        problems.append("U+%04X passes through unescaped" % cp)
+                    elif cp < 0x20:
+                        problems.append("C0 control U+%04X passes through raw" % cp)
+                    continue
+                d = decode_js_escape(text)
+                if d is None:
+                    problems.append("U+%04X is written as %r, which is not one valid JS escape" % (cp, text))
+                    continue
+                if d[0] != cp:
+                    problems.append("U+%04X is written as %r, which decodes to U+%04X" % (cp, text, d[0]))
+                if not d[1] and (not foll or (foll[0] is not None and foll[0].isdigit())):
+                    problems.append("%r is written %s: a legacy octal escape" % (text, "whatever follows" if not foll else "although the digit %r follows" % foll[0]))
+                if not wxml_accepts(text):
+                    problems.append("%r is not read back by the WXML string parser" % text)
+                forms.add(text[:2])
         else:
-            obs.append(ob("%s/class/%x-%x" % (prefix, lo, hi), not problems, where, "; ".join(problems) if problems else "U+%04X..U+%04X -> %s: decodes to itself" % (lo, hi, sorted(texts))))
+            problems = sorted(set(problems))
+            obs.append(ob("%s/class/%x-%x" % (prefix, lo, hi), not problems, where, "; ".join(problems) if problems else "U+%04X..U+%04X -> %s: decodes to itself" % (lo, hi, sorted(texts)),
+                          witness=None if not problems else "a constant containing that character (and follower) reaches the generated script as a different string"))
     if undecided:
         obs.append(ob(prefix + "/table", None, where, "character classes %s are decided by a construct outside the interpreted fragment: not decided for this tree" % ["%x-%x" % c for c in undecided[:4]]))
     quotes = [n for n in sir.walk(f.body) if n.get("k") == "mcall" and n["m"] == "push" and n["args"] and n["args"][0].get("k") == "lit" and n["args"][0].get("v") == '"']
